@@ -108,6 +108,11 @@ class DNSServer(Service, discriminator="dns-server"):
 
         # cast payload into a DNS packet
         payload: DNSPacket = payload
+        if payload.dns_reply is not None:
+            # a packet that already carries a reply is not a request: answering it would start an endless exchange
+            # between two DNS servers (a DNS server and a DNS client can exist on the same node)
+            self.sys_log.debug(f"{self.name}: Ignoring a DNS packet that already carries a reply")
+            return False
         if payload.dns_request is not None:
             self.sys_log.info(
                 f"{self.name}: Received domain lookup request for {payload.dns_request.domain_name_request} "
